@@ -72,10 +72,10 @@ CHECKS['C16'] = dict(
     text="Proof: for every dependency graph (cyclic or not) the ordering loop of write_python_table_native, when it finishes, lists every contributing library exactly once; every "
          "dependency not broken as part of a reported cycle is respected; in an acyclic graph nothing is broken, so each library precedes all libraries deriving from it; the cycle "
          "search only reports closed walks along current edges; the loop TERMINATES on every graph held in a std::map (potential: libraries not listed + names without entry + edges; "
-         "a search that reports no cycle in a live graph has created an entry - by induction over the depth-first path, bounded by pigeonhole). Correspondence: all digraphs on <=3 libraries and random ones on 4-6 libraries are built by real interrogate runs and "
+         "a search that reports no cycle in a live graph has created an entry - by induction over the depth-first path, bounded by pigeonhole). Correspondence: all digraphs on <=3 libraries and random ones on 4-6 libraries are built by real interrogate runs (inheritance edges, chains of derived classes, typedef edges) and "
          "linked by interrogate_module in every command-line order; the exact 'Referencing Library' / RegisterTypes / LibraryDef order must equal the extracted model's; "
          "unloadable databases must give a non-zero exit and no output file.",
-    note=TB + "typedef edges across libraries cannot be realised without exporting one class from two libraries and are not generated.",
+    note=TB + "a cross-library typedef edge cannot be produced by interrogate alone (a typedef of a foreign class is exported only under forcetype, which also exports the class): every third edge is realised by a global typedef record appended to the database text in interrogate's own record format (the library uses the foreign class, the record wraps the stub).",
     technique="Coq proof (loop invariant over the dependency map: edge accounting, order, cycle-search soundness, termination by a potential function) + exact-order differential check against interrogate_module",
     ref="5/C16")
 
